@@ -4,6 +4,9 @@ CONSTANTS
   Echo = TRUE
   MaxLen = 6
   Fixes = {}
+  Syms = {"init", "initrej", "terminate", "ping", "sub1q", "sub1s", "sub2q", "subbad", "comp1", "comp9", "malformed", "missingid", "readerr"}
+  EngWhats = {"data", "fin", "error", "result"}
+  Extras = TRUE
   MaxIn = 3
   MaxEng = 2
   PreInit = FALSE
